@@ -503,6 +503,7 @@ contract("msmart.base_device.Device.authenticate",
 
 # ---- C03 / C05: truncation lemmas (proved outright; content tampering reduces to the hash assumptions) --------------------------
 contract(LAN + "_Packet.decode#truncated",
+         noreturn=True,
          params={"device_id": "int[0,18446744073709551615]", "ts": "bytes[8]", "frame": "bytes", "k": "int[0,70000]"},
          requires=["len(frame) <= 65000", "k < v2_len(len(frame))"],
          let={"data": "v2_packet(device_id, ts, frame)[:k]"},
@@ -512,6 +513,7 @@ contract(LAN + "_Packet.decode#truncated",
 
 
 contract(LAN + "_Packet.decode#signature_tamper",
+         noreturn=True,
          params={"device_id": "int[0,18446744073709551615]", "ts": "bytes[8]", "frame": "bytes", "i": "int[0,15]", "v": "byte"},
          requires=["len(frame) <= 65000", "v != v2_packet(device_id, ts, frame)[v2_len(len(frame)) - 16 + i]"],
          let={"p": "v2_packet(device_id, ts, frame)",
@@ -522,6 +524,7 @@ contract(LAN + "_Packet.decode#signature_tamper",
          notes="C03: altering any byte of the signature is rejected outright (no cryptographic assumption needed)")
 
 contract(LAN + "_Packet.decode#marker_tamper",
+         noreturn=True,
          params={"device_id": "int[0,18446744073709551615]", "ts": "bytes[8]", "frame": "bytes", "i": "int[0,1]", "v": "byte"},
          requires=["len(frame) <= 65000", "v != 0x5a"],
          let={"data": "v2_packet(device_id, ts, frame)[:i] + bytes([v]) + v2_packet(device_id, ts, frame)[i + 1:]"},
@@ -571,8 +574,7 @@ contract(LANC + ".max_connection_lifetime!setter",
 # ---- event-loop callbacks of the protocol objects: they are called by the environment, so they are verified on their own -----------
 contract(LAN + "_LanProtocol.connection_made",
          params={"self": "sub:" + LAN + "_LanProtocol", "transport": "ext:transport"},
-         modifies=["self._transport", "self._peer"], raises={},
-         ensures={"transport_kept_for_the_session": "same_object(self._transport, transport)"},
+         modifies=["self._peer"], assigns={"self._transport": "transport"}, raises={},
          notes="proto_ok / lan_inv rely on it: a connected protocol has its transport")
 
 contract(LAN + "_LanProtocol.connection_lost",
